@@ -21,6 +21,8 @@ unique names and whose defs are not recursive).
 
 Intended-semantics choices where mako's generated code is quirky (the generator `gen_template.py` stays away
 from these; they are recorded for C05/C03): `caller.x()` evaluated inside a `<%call expr>` does not see the pending caller; `return` inside a buffered def keeps the content.
+Limitation (not a choice): a `<%call>` body is rendered with no enclosing loop contexts, whereas in mako `loop` used
+directly in a call body under a `% for` denotes that loop; the generator does not emit this shape.
 -/
 namespace MakoModel.Codegen.Spec
 open MakoModel.Target MakoModel.Codegen
